@@ -45,27 +45,25 @@ def parse_record(line, canon=None):
     """Decode one record line (no line terminator).  Returns a dict:
        ok       condition: start code, hex digits, RECLEN matches the line length, checksum correct
        reclen, offset, typ, data (list of byte values), checksum_ok, reclen_ok  (for diagnostics)
-       lemma    see below
     or None if the line cannot be a record at all (too short / odd number of digits): malformed.
 
-    canon (optional, proof engineering only): a function (digit_codes, byte_values) -> (byte_values',
-    lemma) that may replace each decoded byte value by an EQUAL simpler term; `lemma` is the condition
-    "all replacements are equal to what this reader computed" and must be discharged by the caller as
-    an obligation of its own.  Without canon (and on plain values) the reader is used as is."""
+    canon (optional, proof engineering only): a function (digit_codes, byte_values, byte_valid) ->
+    (byte_values', byte_valid') that may replace a decoded byte value / its "both characters are hex
+    digits" condition by an EQUAL simpler term; the caller's canon is responsible for proving every
+    replacement (symx.hexlemma does, by a solver-checked lemma).  Without canon (and on plain values)
+    the reader is used as is."""
     cps = cps_of(line)
     if len(cps) < 11 or (len(cps) - 1) % 2:
         return None
-    conds = [cps[0] == 58]
-    bs = []
+    bs, valid = [], []
     for i in range(1, len(cps), 2):
         h, okh = hexval(cps[i])
         l, okl = hexval(cps[i + 1])
-        conds.append(okh)
-        conds.append(okl)
+        valid.append(sym_and(okh, okl))
         bs.append(h * 16 + l)
-    lemma = True
     if canon is not None:
-        bs, lemma = canon(cps[1:], bs)
+        bs, valid = canon(cps[1:], bs, valid)
+    conds = [cps[0] == 58] + valid
     reclen = bs[0]
     data = bs[4:-1]
     reclen_ok = reclen == len(data)
@@ -75,7 +73,7 @@ def parse_record(line, canon=None):
     checksum_ok = (total % 256) == 0
     return dict(ok=sym_and(reclen_ok, checksum_ok, *conds), reclen=reclen, offset=bs[1] * 256 + bs[2],
                 typ=bs[3], data=data, reclen_ok=reclen_ok, checksum_ok=checksum_ok,
-                syntax_ok=sym_and(*conds), lemma=lemma)
+                syntax_ok=sym_and(*conds))
 
 
 def be(bs):
@@ -91,11 +89,9 @@ def decode(lines, canon=None):
                  segments=[(address, [bytes])...] in file order,
                  start_linear=value|None, start_segment=value|None, records=n).
     records_ok: every line is a well-formed record (start code, digits, RECLEN, checksum);
-    structure_ok: record types, field lengths and the end-of-file rules;
-    lemmas: conjunction of the canon lemmas (see parse_record), True without canon."""
+    structure_ok: record types, field lengths and the end-of-file rules."""
     conds = []
     rconds = []
-    lemmas = []
     segments = []
     start_linear = None
     start_segment = None
@@ -113,7 +109,6 @@ def decode(lines, canon=None):
             rconds.append(False)
             continue
         rconds.append(r["ok"])
-        lemmas.append(r["lemma"])
         typ = r["typ"]
         data = r["data"]
         if typ == 0:                 # (a symbolic record type forks here)
@@ -171,7 +166,7 @@ def decode(lines, canon=None):
     records_ok = sym_and(*rconds) if rconds else True
     structure_ok = sym_and(*conds)
     return dict(records_ok=records_ok, structure_ok=structure_ok, conforming=sym_and(records_ok, structure_ok),
-                segments=segments, lemmas=sym_and(*lemmas) if lemmas else True,
+                segments=segments,
                 start_linear=start_linear, start_segment=start_segment, records=n)
 
 
